@@ -108,7 +108,6 @@ fn eval_gt(ctx: &Ctx, case: &GtCase) -> Verdict {
     };
     let (run, argv) = run_create(ctx, &dir, "c08", &cs, &container, &opts, Transport::Path);
     let what = format!("GT {:?} (ALT column with {} alleles) in the {} path, probe sample {} (`sfs {}`)", case.gt, case.n_alt.unwrap_or(3), if case.bcf { "BCF" } else { "VCF" }, if case.selected { "selected" } else { "NOT selected" }, argv.join(" "));
-    let bare_dot = case.gt == ".";
     let stderr = run.stderr_str();
     ensure!(!run.panicked(), "{what}: panic: {}", run.describe());
 
@@ -118,11 +117,6 @@ fn eval_gt(ctx: &Ctx, case: &GtCase) -> Verdict {
 
     if !case.selected {
         // no effect at all: the output is that of the mate alone (0/1 -> index 1 of shape 3)
-        if bare_dot && !run.ok() {
-            ensure!(run.clean_failure() && run.stdout.is_empty(), "{what}: {}", run.describe());
-            pass.add_label("bare-dot-rejected");
-            return Ok(pass);
-        }
         ensure!(run.ok(), "{what}: an unselected sample made the run fail: {}", run.describe());
         ensure!(run.stdout_str() == "#SHAPE=<3>\n0 1 0\n", "{what}: an unselected sample influenced the output: {}", run.describe());
         ensure!(!stderr.contains("Skipping sample 'probe'"), "{what}: the unselected sample is reported as skipped: {}", run.describe());
@@ -151,17 +145,9 @@ fn eval_gt(ctx: &Ctx, case: &GtCase) -> Verdict {
             }
         }
         GtClass::NotDiploid => {
-            if bare_dot && run.ok() {
-                // VCF's missing-field marker: "skipped as missing" is accepted, counting is not
-                ensure!(run.stdout_str() == "#SHAPE=<5>\n0 0 0 0 0\n", "{what}: bare '.' must never be counted: {}", run.describe());
-                pass.add_label("bare-dot-skipped");
-                return Ok(pass);
-            }
             ensure!(run.clean_failure(), "{what}: a non-diploid genotype in a selected sample must fail the run with a diagnostic: {}", run.describe());
             ensure!(run.stdout.is_empty(), "{what}: a failing run must not write a spectrum: {}", run.describe());
-            if !bare_dot {
-                ensure!(names_site(&stderr), "{what}: the error must name contig {CONTIG} and position {POS}: {}", run.describe());
-            }
+            ensure!(names_site(&stderr), "{what}: the error must name contig {CONTIG} and position {POS}: {}", run.describe());
         }
     }
     Ok(pass)
@@ -303,7 +289,7 @@ pub fn check(ctx: &Ctx) -> Check {
         parts,
         level: "exploration",
         assumptions: vec![
-            "soundness decision: the bare string '.' is VCF's missing-field marker; for it 'skipped as missing' and 'run fails with a diagnostic' are both accepted (never counted), in both containers and whether or not the sample is selected",
+            "the lone string '.' is VCF's spelling of a wholly missing genotype (no ploidy implied): it is classified as missing, in both containers (BCF: one missing allele plus end-of-vector padding, as htslib writes it)",
         ],
         post: None,
     }
